@@ -1,11 +1,14 @@
 (* C13 - Standard-form conversion preserves the problem.  Statements, `exact`, Print Assumptions only.
-   STATUS: partial.  The end-to-end forward/backward transfer theorem over to_standard_form (positional
-   bookkeeping of appended/removed columns) is the target and is not proved; proved are the row-level facts the
-   conversion is made of.  The whole conversion is tied structurally to the implementation on every run and the
-   transfer itself is evaluated on the implementation at grid points. *)
+   STATUS: the backward direction is proved end to end over to_standard_form (C13_backward): every non-negative
+   solution of the standard form, read back by name with a free variable v as $p v - $m v, satisfies every row of
+   the linear model, lies in every variable's domain, and the standard form's objective row evaluates to the
+   model's objective there (negated for max).  The forward direction (every feasible point of the model has a
+   standard-form preimage) is proved row by row (the _partial lemmas) and not yet over the whole conversion; it is
+   evaluated on the implementation at grid points on every run.  The whole conversion is tied structurally to the
+   implementation on every run. *)
 From Coq Require Import QArith Reals List String.
 From Rooc Require Import Base.XQ Model.Exp Model.Bounds Model.Linearize Model.Spec Model.Standardize
-  Proof.PivotSound Proof.StandardizeSound.
+  Proof.PivotSound Proof.StandardizeSound Proof.StandardizeEquiv Proof.StandardizeBack.
 Import ListNotations.
 Local Close Scope Q_scope.
 Local Open Scope R_scope.
@@ -29,5 +32,33 @@ Proof. exact free_split_sound. Qed.
 Theorem C13_flip_partial : forall f1 f2 off : R, (- f1 <= - f2) <-> (f1 + off >= f2 + off).
 Proof. exact flip_sound. Qed.
 
+
+(* full backward transfer.  lin_okb is the boolean well-formedness of the input: every row and the objective have one
+   finite coefficient per variable, finite right-hand sides, Real bounds are numbers or the matching infinity,
+   NonNegativeReal lower bounds are numbers. *)
+Theorem C13_backward :
+  forall (L : linmodel) (S : stdmodel), to_standard_form L = inr S -> lin_okb L = true ->
+  forall tau : string -> R, sat_std S tau ->
+    (forall r, In r (lm_rows L) -> row_holds (lm_vars L) (back_point (lm_domain L) tau) r) /\
+    (forall v t, In v (lm_vars L) -> al_get (lm_domain L) v = Some t -> in_dom t (back_point (lm_domain L) tau v)) /\
+    dot (sm_obj S) (sm_vars S) tau
+      = (if sm_flip S then -1 else 1) * dot (lm_objective L) (lm_vars L) (back_point (lm_domain L) tau).
+Proof. exact standard_form_backward. Qed.
+Theorem C13_backward_nonvacuous :
+  exists S, to_standard_form L0 = inr S /\ lin_okb L0 = true /\ sat_std S tau0 /\ back_point (lm_domain L0) tau0 "x"%string = 2.
+Proof. exact backward_premises_meet. Qed.
+(* the objective row alone, for any point (no feasibility needed) *)
+Theorem C13_objective_row :
+  forall (L : linmodel) (S : stdmodel), to_standard_form L = inr S ->
+  List.length (lm_objective L) = List.length (lm_vars L) -> Forall finx (lm_objective L) ->
+  forall tau, dot (sm_obj S) (sm_vars S) tau
+    = (if sm_flip S then -1 else 1) * dot (lm_objective L) (lm_vars L) (back_point (lm_domain L) tau).
+Proof.
+  intros L S HS Lo Fo tau. rewrite (std_objective_value L S HS Lo Fo tau).
+  rewrite <- (dot_back_is_dot (lm_domain L) tau (lm_vars L)). reflexivity.
+Qed.
+
+Print Assumptions C13_backward.
+Print Assumptions C13_objective_row.
 Print Assumptions C13_rhs_normalised_partial.
 Print Assumptions C13_row_rhs_nonneg_partial.
